@@ -20,6 +20,7 @@ import (
 	"testing"
 	"testing/synctest"
 	"time"
+	"unsafe"
 )
 
 // Stream identifies one of the three independent choice tapes.
@@ -138,12 +139,13 @@ const (
 	bJoin
 	bQuiesce
 	bOnce
+	bCond
 )
 
-var blockNames = [...]string{"none", "mutex", "rwmutex.R", "rwmutex.W", "chan", "waitgroup", "sleep", "join", "quiesce", "once"}
+var blockNames = [...]string{"none", "mutex", "rwmutex.R", "rwmutex.W", "chan", "waitgroup", "sleep", "join", "quiesce", "once", "wait"}
 
 type pendAccess struct {
-	id    uintptr
+	id    unsafe.Pointer
 	write bool
 	site  string
 }
@@ -168,6 +170,8 @@ type task struct {
 	prio    int
 	ticks   int
 	tickSite string
+	cond    *Cond
+	condSignalled bool
 	daemon  bool // never counted as "work pending" (cleanup loops etc. are ordinary tasks; this is for harness helpers)
 	opLabel string
 }
@@ -200,6 +204,7 @@ type Sim struct {
 	notes    map[string]any
 	invs     []invariant
 	posts    []func() *Violation
+	idRng    *rand.Rand
 	endSim   time.Duration
 
 	locks    map[uintptr]*lockInfo
@@ -873,6 +878,10 @@ func (s *Sim) afterClockAdvance() {
 			if !o.until.After(now) {
 				o.state = tRunnable
 			}
+		case bCond:
+			if !o.until.IsZero() && !o.until.After(now) {
+				o.state = tRunnable // deadline passed without a signal
+			}
 		case bChan:
 			o.state = tRunnable // re-poll: a timer or context may have fired into its channel
 		}
@@ -1007,6 +1016,8 @@ func (s *Sim) Wait(hs ...*Handle) {
 func (s *Sim) WaitTimeout(d time.Duration, hs ...*Handle) bool {
 	deadline := time.Now().Add(d)
 	for {
+		// let everything runnable run (and every re-poll settle), then look
+		s.Quiesce(0)
 		all := true
 		for _, h := range hs {
 			if h.t.state != tDone {
@@ -1016,21 +1027,11 @@ func (s *Sim) WaitTimeout(d time.Duration, hs ...*Handle) bool {
 		if all {
 			return true
 		}
-		if !time.Now().Before(deadline) {
+		now := time.Now()
+		if !now.Before(deadline) {
 			return false
 		}
-		// let everything runnable run, then move the clock in small hops bounded by the deadline
-		s.Quiesce(0)
-		all = true
-		for _, h := range hs {
-			if h.t.state != tDone {
-				all = false
-			}
-		}
-		if all {
-			return true
-		}
-		now := time.Now()
+		// move the clock in hops bounded by the deadline
 		next, ok := s.nextDeadline(now)
 		if !ok || next.After(deadline) {
 			next = deadline
@@ -1108,6 +1109,17 @@ func (s *Sim) SetStrategy(st Strategy) Strategy {
 		s.pctChange = map[uint64]bool{}
 	}
 	return prev
+}
+
+// RandBytes fills b from a stream derived from the run's seed (not recorded on a tape: a replay
+// uses the same seed and therefore the same stream).
+func (s *Sim) RandBytes(b []byte) {
+	if s.idRng == nil {
+		s.idRng = rand.New(rand.NewPCG(s.cfg.Seed, 0x1d5eed))
+	}
+	for i := range b {
+		b[i] = byte(s.idRng.UintN(256))
+	}
 }
 
 // Settle waits until every goroutine of the bubble other than the caller is durably blocked
